@@ -46,14 +46,14 @@ def keptLines (file : List Char) (f : Filter) : List (List Char) :=
 /-- the adapter's `filtered` flag along a sequence of calls -/
 inductive Call
   | loadFull (ok : Bool)               -- LoadPolicy / LoadFilteredPolicy(nil): clears the flag on success
-  | loadFiltered (ok : Bool)           -- LoadFilteredPolicy(filter) / incremental: sets it on success
+  | loadFiltered (ok : Bool)           -- LoadFilteredPolicy(filter) / incremental: sets it, completed or not
   | save
 deriving Repr, DecidableEq
 
 /-- `NewFilteredAdapter` starts filtered; (flag, whether SavePolicy wrote the file) -/
 def flagStep (filtered : Bool) : Call → Bool × Bool
   | .loadFull ok => (if ok then false else filtered, false)
-  | .loadFiltered ok => (if ok then true else filtered, false)
+  | .loadFiltered _ => (true, false)
   | .save => (filtered, !filtered)
 
 def flagRun (filtered : Bool) : List Call → Bool × List Bool
